@@ -330,6 +330,31 @@ def decode_uses(ctx, fn, instr_param=2):
     """set of (lo, width, sext, sink) for a handler `fn(&mut self, instr)`"""
     prog = ctx.prog
 
+    def _has_instr(x):
+        return any(y[0] == "arg" and y[1] == instr_param for y in expr_walk(x))
+
+    def _push_masks(e):
+        """`(a & field) & m` == `a & (field & m)`: a constant mask applied to a conjunction narrows the instruction field inside it"""
+        if not isinstance(e, tuple) or not e:
+            return e
+        e = tuple(_push_masks(x) if isinstance(x, tuple) and x and isinstance(x[0], str) else
+                  (tuple(_push_masks(y) if isinstance(y, tuple) else y for y in x) if isinstance(x, tuple) else x) for x in e)
+        if e[0] == "bin" and e[1] == "BitAnd":
+            for X, m in ((e[2], e[3]), (e[3], e[2])):
+                if m[0] == "const" and X[0] == "bin" and X[1] == "BitAnd":
+                    P, Q = X[2], X[3]
+                    if _has_instr(Q) and not _has_instr(P):
+                        return ("bin", "BitAnd", P, _push_masks(("bin", "BitAnd", Q, m)))
+                    if _has_instr(P) and not _has_instr(Q):
+                        return ("bin", "BitAnd", _push_masks(("bin", "BitAnd", P, m)), Q)
+        return e
+
+    def _fx(*a, **k):
+        return _push_masks(fn.expr(*a, **k))
+
+    def _frx(*a, **k):
+        return _push_masks(fn.rvalue_expr(*a, **k))
+
     def is_instr(e):
         return e[0] == "arg" and e[1] == instr_param
 
@@ -377,7 +402,7 @@ def decode_uses(ctx, fn, instr_param=2):
         t = fn.term(b)
         if t["k"] == "call":
             c = callee_of(t) or ""
-            args = [fn.expr(a, 12) for a in t["args"]]
+            args = [_fx(a, 12) for a in t["args"]]
             if c.endswith("RunState::reg") and len(args) == 2:
                 f = instr_field(args[1], is_instr)
                 if f:
@@ -398,7 +423,7 @@ def decode_uses(ctx, fn, instr_param=2):
                     if f:
                         uses.add(f + (classify_add(pe, f),))
         elif t["k"] == "switch":
-            e = fn.expr(t["a"], 12)
+            e = _fx(t["a"], 12)
             # direct switch on a field (trap vector) or a test of a field
             f = instr_field(e, is_instr)
             if f:
@@ -414,7 +439,7 @@ def decode_uses(ctx, fn, instr_param=2):
     for b, i, s in fn.assigns():
         r = s["r"]
         if r["k"] == "bin" and r["op"].replace("WithOverflow", "").replace("Unchecked", "") in ("BitAnd", "BitOr", "BitXor", "Add", "Sub"):
-            ops = [fn.expr(o, 12) for o in (r["a"], r["b"])]
+            ops = [_fx(o, 12) for o in (r["a"], r["b"])]
             for e in ops:
                 f = instr_field(e, is_instr)
                 if f and f[2]:
@@ -426,7 +451,7 @@ def decode_uses(ctx, fn, instr_param=2):
     for b in sorted(fn.live_blocks()):
         t = fn.term(b)
         if t["k"] == "call" and (callee_of(t) or "").endswith("RunState::s_ext"):
-            args = [fn.expr(a, 12) for a in t["args"]]
+            args = [_fx(a, 12) for a in t["args"]]
             f = instr_field(("call", callee_of(t), tuple(args)), is_instr)
             if f and not any(u[:3] == f for u in uses):
                 uses.add(f + ("alu",))
